@@ -47,13 +47,25 @@ M = [
  ('values of a bus address are unescaped', 'C09', "address 'unix:path=/t%20b%2dx' (escaped as the specification prescribes): the client dials a socket literally named '/t%20b%2dx' instead of '/t b-x'; the same for abstract="),
  ('a unix address naming no socket is skipped', 'C09', "address list 'unix:runtime=y;unix:path=/t/b': UnboundLocalError out of getDBusEndpoints, the second, reachable address is never tried"),
  ('every disconnect callback runs even when one of them cancels itself', 'C09', "three disconnect callbacks registered, the first cancels its own registration while it runs, the connection is lost: the second callback never runs (connection-level and proxy-level lists alike)"),
+ ('every caller waiting on a shared Deferred gets its result', 'C10', "an exported method returns ONE Deferred to two concurrent calls and the Deferred fires with a value: the second caller gets org.txdbus.PythonException.MarshallingError instead of the value"),
  ('RequestName queues a requester', 'C13', 'request without the replace flag refused instead of queued; a waiting client requesting again queued twice'),
  ('waiting for a name leaves the queue', 'C13', 'ReleaseName by a queued client answered NOT_OWNER and left it queued; a queued client that disconnected later became a dead owner'),
 ]
 log = subprocess.run(['git', '-C', '/repo', 'log', '--format=%h %s', '4c62642..HEAD'], stdout=subprocess.PIPE).stdout.decode().strip().split('\n')
 path = os.path.join(ROOT, 'findings', 'known_findings.json')
 old = json.load(open(path)) if os.path.exists(path) else {'findings': []}
-out = [f for f in old['findings'] if f.get('status') == 'open']
+# open findings: genuine defects recorded rather than repaired.  `key` is the exact violation key of the check, so that
+# any other violation of the same property is still reported.
+OPEN = [
+    dict(property='C10', status='open',
+         key='a failed Deferred shared by several calls: only the first caller gets the failure, the others a MarshallingError',
+         what="an exported method returns ONE Deferred to two concurrent calls and the Deferred fails: the first caller gets the "
+              "error reply for the failure, the second an error reply org.txdbus.PythonException.MarshallingError "
+              "(handleMethodCallMessage hangs its callbacks on the shared Deferred and the first error reply consumes the failure); "
+              "the success path of the same history was repaired (fix: 'every caller waiting on a shared Deferred gets its result'), "
+              "a repair of the failure path would change who consumes failures of application Deferreds"),
+]
+out = list(OPEN)
 unmatched = []
 for l in reversed(log):
     h, s = l.split(' ', 1)
